@@ -17,6 +17,7 @@ import (
 
 func TestMain(m *testing.M) {
 	kit.Register("quote", quoteOracle)
+	kit.SetClassifier(classify)
 	kit.Register("quote-spec", quoteSpecOracle)
 	kit.Describe("case = (configuration in {core,GFM} x {safe,unsafe,xhtml}, non-blank TAB/CR-free document D, n in 1..3); oracle: Convert(q^n(D)) == '<blockquote>\\n'^n + Convert(D) + '</blockquote>\\n'^n with q prefixing every line by '> '; for the spec examples without TAB/CR the expected side is spec.json's html; non-trivial = D has >= 2 lines and its tree contains a container or a multi-line leaf block; distinct by hash of (configuration, D, n)",
 		"'line' = maximal run ending in LF (or the unterminated rest); blank documents are not generated")
@@ -43,6 +44,40 @@ func conv(cfg gen.Config, src []byte) ([]byte, error) {
 	var b bytes.Buffer
 	err := cfg.MD().Convert(src, &b)
 	return b.Bytes(), err
+}
+
+// classify: known finding F38. The link parser gives up on a ']' when the first and the last still-unmatched
+// '[' of the paragraph are more than 998 source bytes apart (a guard against deeply nested brackets that quotes the
+// 999-character limit of link labels). The distance is taken in source offsets, so the "> " in front of every line
+// between the two brackets counts: a link that follows two unmatched openers is recognised in D and not in the
+// quoted D. Signature: D holds two '[' with at least one line ending between them whose distance is at most 998
+// in D and more than 998 once 2n bytes per line ending are added (n = number of quote levels).
+func classify(c *kit.Case, err error) string {
+	v, ok := err.(*kit.Violation)
+	if !ok || v.Code != "quote-differs" {
+		return ""
+	}
+	d := c.Bytes["src"]
+	n := int(c.Ints["n"])
+	if n < 1 {
+		n = 1
+	}
+	var pos []int
+	for i, b := range d {
+		if b == '[' {
+			pos = append(pos, i)
+		}
+	}
+	for i := 0; i < len(pos); i++ {
+		for j := i + 1; j < len(pos); j++ {
+			nl := bytes.Count(d[pos[i]:pos[j]], []byte("\n"))
+			dist := pos[j] + 1 - pos[i]
+			if nl > 0 && dist <= 999 && dist+2*n*nl+1 > 998 {
+				return "F38"
+			}
+		}
+	}
+	return ""
 }
 
 func quoteOracle(c *kit.Case) error {
